@@ -19,7 +19,7 @@ CHECKS["C06"] = {
     "registered": True,
     "engine": "pmc-rt",
     "technique": "stateless preemption-bounded exhaustive schedule enumeration of pika tasks on a live 2-worker runtime (controlled scheduler over hooked atomics + interposed pthreads, virtual clock)",
-    "level_text": "Every schedule within the deviation bound (preemptions at the atomics of the mutex object and the task state words, early timeouts) of every small lock/try_lock/timed/recursive/misuse program is executed on the real runtime; occupancy, critical-section visibility, hand-off (no stuck waiter), try-result truthfulness and error reporting are checked in each execution. Critical sections contain a scheduling point; recursive spin mutex explored at 2 deviations.",
+    "level_text": "Every schedule within the deviation bound (preemptions at the atomics of the mutex object and the task state words, early timeouts) of every small lock/try_lock/timed/recursive/misuse program is executed on the real runtime; occupancy, critical-section visibility, hand-off (no stuck waiter), try-result truthfulness and error reporting are checked in each execution. Critical sections contain a scheduling point; recursive spin mutex explored at 2 deviations. The spinlocks also from plain OS threads (3 threads x 1 section, 2 x 2; 4 deviations): hand-over after a release with several contenders.",
     "level_note": "Sequentially consistent interleavings only; 2 workers, 2-3 tasks, 1-2 critical sections each; choice points at atomics on the watched mutex and task thread_data (unwatched runtime internals run in canonical order); bounds per spec in the evidence.",
     "rule": "pmc-rt: task programs over {lock, try_lock, lock+yield, relock, try_lock_for/until, re-entrant lock} (data choices) x all schedules within the deviation bound",
     "parts": [{"bin": "C06_mutex"}],
@@ -59,7 +59,7 @@ CHECKS["C09"] = {
     "registered": True,
     "engine": "pmc-rt + spin",
     "technique": "stateless preemption-bounded exhaustive schedule enumeration of latch / barrier / event / call_once programs on a live 2-worker runtime and on plain OS threads; plus explicit-state model checking (Spin) of a Promela model of pika::barrier that is bound to the code by comparing the complete sets of event histories of model and implementation",
-    "level_text": "Every schedule within the deviation bound of every small participant program (latch arrive/wait mixes, barrier phases with arrive_and_wait / arrive+wait / arrive_and_drop and a counting completion function, event waiters incl. a late one, call_once with a throwing first attempt) is executed on the real code; departures are checked against arrival counts and completion counts, body counters against 1, and blocked waiters whose release condition holds show up as stuck executions.",
+    "level_text": "Every schedule within the deviation bound of every small participant program (latch arrive/wait mixes, barrier phases with arrive_and_wait / arrive+wait / arrive_and_drop and a counting completion function, event waiters incl. a late one, call_once with a throwing first attempt) is executed on the real code; departures are checked against arrival counts and completion counts, body counters against 1, and blocked waiters whose release condition holds show up as stuck executions. The barrier's completion function has a duration (scheduling point inside): nobody may be released while it runs.",
     "level_note": "Sequentially consistent interleavings only; 2 workers; 2-3 participants; 2 barrier phases; choice points at atomics on the primitive and the task state words; polling loops (barrier spin wait) stop opening choice points after three identical iterations. Secondary layer: models/barrier.pml (one transition per atomic operation of barrier.hpp / barrier.cpp) is verified by Spin for up to 4 (thorough 5) participants, 3 phases, arrive_and_drop, arbitrary start nodes and phase-byte wrap-around; its event histories are compared with those of the real barrier (equal sets for the n=2 configurations explored completely, implementation subset of model for n=3 within the bound); on a mismatch the model layer is dropped and says so.",
     "rule": "pmc-rt/pmc-os: participant op mixes (data choices) x all schedules within the deviation bound; spin: all reachable states of the barrier model for the listed parameters + history-set comparison with the implementation",
     "parts": [{"bin": "C09_latch_barrier"}, {"bin": "C09_barrier_conf", "kind": "buildonly"}, {"bin": "harness/c09_barrier_model.py", "kind": "script", "part": "barrier-model"}],
@@ -69,7 +69,7 @@ CHECKS["C14"] = {
     "registered": True,
     "engine": "seqx + pmc-os + pmc-rt",
     "technique": "BFS over sequential copy/move/assign/register histories vs a reference stop-state model (de-duplicated on the model state, every transition replayed on the real objects) + stateless preemption-bounded exhaustive schedule enumeration of racing request_stop / register / destroy programs",
-    "level_text": "All operation histories to depth 5 (6 thorough) over 2 sources, 2 tokens and 2 callbacks are executed on the real classes, on a plain thread and inside a pika task, and compared step by step with a reference model (stop_possible, stop_requested, request_stop results, callback run counts; a history that does not return is a reported hang). Racing request_stop callers, registration vs request_stop, destruction vs a running callback and self-deregistration are explored over every schedule within the deviation bound on OS threads and on pika tasks. Also: token queries (stop_possible / stop_requested) racing with callback registration and deregistration, with and without a remaining stop_source.",
+    "level_text": "All operation histories to depth 5 (6 thorough) over 2 sources, 2 tokens and 2 callbacks are executed on the real classes, on a plain thread and inside a pika task, and compared step by step with a reference model (stop_possible, stop_requested, request_stop results, callback run counts; a history that does not return is a reported hang). Racing request_stop callers, registration vs request_stop, destruction vs a running callback and self-deregistration are explored over every schedule within the deviation bound on OS threads and on pika tasks. Also: token queries (stop_possible / stop_requested) racing with callback registration and deregistration, with and without a remaining stop_source. A callback that is resumed on another worker (its worker kept busy by another task) and then destroys itself.",
     "level_note": "Sequentially consistent interleavings only; 2-3 racing threads/tasks; callbacks contain two harness scheduling points so that the 'is executing' window is wide; histories are bounded by depth, not by the number of objects (2 of each).",
     "rule": "seqx: BFS histories depth<=5/6; pmc: race programs x all schedules within the deviation bound",
     "parts": [{"bin": "C14_stop_seq", "part": "seq"}, {"bin": "C14_stop_race", "part": "race"}],
@@ -79,7 +79,7 @@ CHECKS["C13"] = {
     "registered": True,
     "engine": "pmc-rt",
     "technique": "stateless preemption-bounded exhaustive schedule enumeration of create/join/detach/interrupt/jthread programs on a live 2-worker runtime",
-    "level_text": "Every schedule within the deviation bound of thread programs (target bodies: return, yield twice, wait for a flag, spawn and join a child; joiner: creator or another task; detach, double join, self join; jthread destructor; interrupt with a disabled window and a sibling) is executed on the real runtime; body_done at join return, joinable(), the documented error codes, the phase in which an interruption is observed and an unaffected sibling are asserted; a join that never returns shows up as a stuck execution. Also: an interruption request refused while the blocked target has interruption disabled; nested disable_interruption guards.",
+    "level_text": "Every schedule within the deviation bound of thread programs (target bodies: return, yield twice, wait for a flag, spawn and join a child; joiner: creator or another task; detach, double join, self join; jthread destructor; interrupt with a disabled window and a sibling) is executed on the real runtime; body_done at join return, joinable(), the documented error codes, the phase in which an interruption is observed and an unaffected sibling are asserted; a join that never returns shows up as a stuck execution. Also: an interruption request refused while the blocked target has interruption disabled; nested disable_interruption guards. A thread that registers an exit callback for itself while it is joined (2 deviations); jthread handle operations (swap, move onto an empty handle) followed by destruction: the stop request goes to the thread the destroyed handle represents.",
     "level_note": "Sequentially consistent interleavings only; 2 workers; choice points at creator/joiner state words, the whole thread_data of the target and the atomics of exit-callback registration/run, thread::join, set_thread_state, interrupt_thread and stop_state (F-site).",
     "rule": "pmc-rt: thread bodies x joiners (data choices) x all schedules within the deviation bound",
     "parts": [{"bin": "C13_thread_join"}],
@@ -89,7 +89,7 @@ CHECKS["C01"] = {
     "registered": True,
     "engine": "pmc-rt",
     "technique": "stateless preemption-bounded exhaustive schedule enumeration of task trees on a live runtime (1-2 workers, all 8 scheduling policies) with an entry/exit ledger and a single-runner monitor",
-    "level_text": "Every schedule within the deviation bound of task-tree programs (root submitted from a non-pika thread, 2-3 children created by execute() or as detached pika::thread, two phases each from work / yield / boosted yield / suspend-until-event, two priorities) is executed on the real runtime under each of the 8 scheduling policies; each body must be entered and left exactly once, never be active on two workers, and a quiescent runtime with an unfinished task is reported as a dropped task. Further programs: thread objects recycled after an undelivered interruption request, two external resumers racing for one suspended task, more blocked tasks than the queue's thread map holds (staged tasks beyond max_thread_count).",
+    "level_text": "Every schedule within the deviation bound of task-tree programs (root submitted from a non-pika thread, 2-3 children created by execute() or as detached pika::thread, two phases each from work / yield / boosted yield / suspend-until-event, two priorities) is executed on the real runtime under each of the 8 scheduling policies; each body must be entered and left exactly once, never be active on two workers, and a quiescent runtime with an unfinished task is reported as a dropped task. Further programs: thread objects recycled after an undelivered interruption request, two external resumers racing for one suspended task, more blocked tasks than the queue's thread map holds (staged tasks beyond max_thread_count). More busy-waiting tasks than workers (4 pika::threads polling with yield_while on 2 workers; default schedule): every one must be entered - reported as an open known finding.",
     "level_note": "Sequentially consistent interleavings only; workers 1-2 (statement: 1..16); busy/idle loop limits set to 4 so that the direct-switch and idle paths occur within a few phases; quick tier: choice points at task state words and the rmw/cas sites of thread_data state transitions, set_thread_state and scheduling_loop; thorough tier adds whole thread_data and all queue bookkeeping sites for the default policy.",
     "rule": "pmc-rt: task trees (data choices) x 8 policies x workers {1,2} x all schedules within the deviation bound",
     "parts": [{"bin": "C01_tasks"}],
@@ -99,7 +99,7 @@ CHECKS["C05"] = {
     "registered": True,
     "engine": "pmc-rt",
     "technique": "stateless preemption-bounded exhaustive schedule enumeration of runtime life-cycle histories (start/submit/wait/finalize/stop/restart/suspend/resume, external submitter) on the real runtime with a completion ledger read right after each call returns",
-    "level_text": "Every schedule within the deviation bound of the life-cycle histories is executed on the real runtime: wait() and stop() must not return before every task submitted earlier (and every task those spawn) has finished, stop() must not return before finalize() and must return the entry function's result, a second incarnation with a different worker count and policy runs its own work completely, no body runs between suspend() returning and resume(), and work queued in that window completes after resume; calls that never return are stuck executions. Further histories: five restarts in a row, stop() entered while an entry function has returned non-zero without finalizing, resume(); suspend() back to back before work is queued.",
+    "level_text": "Every schedule within the deviation bound of the life-cycle histories is executed on the real runtime: wait() and stop() must not return before every task submitted earlier (and every task those spawn) has finished, stop() must not return before finalize() and must return the entry function's result, a second incarnation with a different worker count and policy runs its own work completely, no body runs between suspend() returning and resume(), and work queued in that window completes after resume; calls that never return are stuck executions. Further histories: five restarts in a row, stop() entered while an entry function has returned non-zero without finalizing, resume(); suspend() back to back before work is queued. pika::wait() with the local and static queue policies (their own create_thread accounting).",
     "level_note": "Sequentially consistent interleavings only; 1-2 workers, 4 policies; choice points at store/rmw/cas sites of the activity counter, thread_manager, scheduled_thread_pool, scheduler_base suspend/resume, runtime wait/stop/finalize and create/destroy_thread (F-site); all pthread blocking points are scheduling decisions.",
     "rule": "pmc-rt: life-cycle histories x policies (data choices) x all schedules within the deviation bound",
     "parts": [{"bin": "C05_lifecycle"}],
@@ -159,7 +159,7 @@ CHECKS["C18"] = {
     "registered": True,
     "engine": "seqx",
     "technique": "BFS over wrapper operation histories de-duplicated on the reference model, every transition replayed on fresh real wrappers and compared step by step with the un-erased behaviour (differential) + lifetime ledger",
-    "level_text": "All histories to depth 4 (5 thorough) over two wrapper slots - assign a small / larger-than-inline-buffer / throwing / move-only callable or empty, copy-assign (incl. self), move-assign, reset, swap, call, copy-construct a temporary - for function and unique_function, and 12 move/copy/reset/connect scripts x inline/heap stored sender x value/error/stopped for any_sender and unique_any_sender, are executed on the real wrappers; empty flags, call results (per-copy counters show copies are independent), exception kinds on empty use, and the number of live instances per payload kind after every step and at the end are compared with the un-erased reference. Sender wrappers: all histories up to depth 3 (thorough 4) over two slots x {store small/large, move-assign, copy-assign, assign empty, reset, move-construct, connect as rvalue / lvalue} x value/error/stopped; function wrappers: move construction added, all histories up to depth 3 (thorough 4) without de-duplication.",
+    "level_text": "All histories to depth 4 (5 thorough) over two wrapper slots - assign a small / larger-than-inline-buffer / throwing / move-only callable or empty, copy-assign (incl. self), move-assign, reset, swap, call, copy-construct a temporary - for function and unique_function, and 12 move/copy/reset/connect scripts x inline/heap stored sender x value/error/stopped for any_sender and unique_any_sender, are executed on the real wrappers; empty flags, call results (per-copy counters show copies are independent), exception kinds on empty use, and the number of live instances per payload kind after every step and at the end are compared with the un-erased reference. Sender wrappers: all histories up to depth 3 (thorough 4) over two slots x {store small/large, move-assign, copy-assign, assign empty, reset, move-construct, connect as rvalue / lvalue} x value/error/stopped; function wrappers: move construction added, all histories up to depth 3 (thorough 4) without de-duplication. any_sender assigned / constructed from a non-const lvalue sender: the original stays intact.",
     "level_note": "Sequential code only; two slots; one payload clearly below and one clearly above the inline buffer size rather than every size around the threshold.",
     "rule": "seqx: BFS histories depth<=4/5 over 2 slots; sender scripts grid",
     "parts": [{"bin": "C18_type_erasure", "part": "seq"}],
@@ -169,7 +169,7 @@ CHECKS["C19"] = {
     "registered": True,
     "engine": "pmc-rt",
     "technique": "stateless preemption-bounded exhaustive schedule enumeration of suspend/resume histories on a live runtime (2-worker elastic pool + control pool) with a completion ledger",
-    "level_text": "Every schedule within the deviation bound of histories {submit, suspend processing unit k, submit with hint k / other hint / no hint, resume k (also back-to-back after suspend), submit; pool suspend, submit, resume; refused operations}, issued from the main thread or from a task of another pool, is executed on the real runtime; each task must run exactly once by the end, nothing may run on a suspended pool, the calls must return (stuck otherwise), refused operations must report the documented error and leave the pool running. Further histories: a task blocked on the suspended worker's queue across the suspension; pool suspension on top of individually suspended workers.",
+    "level_text": "Every schedule within the deviation bound of histories {submit, suspend processing unit k, submit with hint k / other hint / no hint, resume k (also back-to-back after suspend), submit; pool suspend, submit, resume; refused operations}, issued from the main thread or from a task of another pool, is executed on the real runtime; each task must run exactly once by the end, nothing may run on a suspended pool, the calls must return (stuck otherwise), refused operations must report the documented error and leave the pool running. Further histories: a task blocked on the suspended worker's queue across the suspension; pool suspension on top of individually suspended workers. Suspend and resume of the same PU issued by two OS threads without waiting for each other: both calls return.",
     "level_note": "Sequentially consistent interleavings only; 2-worker pool with local-priority-fifo + elasticity; at most 2 non-canonical successor choices at blocking points per execution in addition to the deviation bound; choice points at the per-worker state words and the store/rmw/cas sites of scheduler_base suspend/resume/select_active_pu and the pool's suspend/resume functions.",
     "rule": "pmc-rt: suspend/resume histories (data choices) x all schedules within the deviation bound",
     "parts": [{"bin": "C19_suspend_pu"}],
